@@ -26,8 +26,16 @@ TRUSTED = [
     'is checked by the oracle under the scheduler and on real threads, but has no LTS of its own: the model covers one queue level',
 ]
 ASSUMPTIONS = ['ignore_error and timeout are not set (piter_multiplex never sets them)',
-               'liveness (every schedule reaches a final configuration) is inherited as a hypothesis in C13_threads_end_partial; '
-               'it is checked on the real code by the scheduler (deadlock = no enabled thread) on every run']
+               'deadlock freedom of the one-queue LTS is a THEOREM (C13_no_deadlock / C13_threads_end: a reachable configuration '
+               'without enabled step is final, for every capacity, batch size, max_workers >= 1 or unbounded, num_steps, '
+               'stop-on-end flag, inputs, row function and every non-empty list of producers; the queue invariant J1/J2/K1/K2 is '
+               'transferred through the embedding, C13_no_lost_wakeup); it is additionally checked on the real code by the '
+               'scheduler (deadlock = no enabled thread) and by enabled-set agreement with the LTS on every run',
+               'termination of the one-queue LTS is a THEOREM too (C13_variant: an explicit measure strictly decreases on every step; '
+               'C13_bounded_executions, C13_terminates: every execution is finite and ends with all helper threads finished and '
+               'the pool shut down), for positive batch sizes',
+               'NOT proved: the two-level composition, where a pool smaller than the number of tasks does deadlock '
+               '(F-C13-pool-small: needs two queues in one pool, outside the LTS)']
 RULE = ('entry points pmap / piter_fn / piter / piter_multiplex / MultiplexIterator x 1-3 inputs of 0-3 (quick) / 0-4 (thorough) '
         'elements x parallelism 1-3 x buffer sizes {0,1,2,3} (3*P for MultiplexIterator) x pool max_workers {default,1,2,3} x '
         'row function in {ident, inc, keep_even, dup, dup_odd} x failure of the input or of the function at any position x '
